@@ -43,6 +43,13 @@
 (*                       its own revisions only: for an object that so far *)
 (*                       lives in the layers below any serial is accepted  *)
 (*                       | storeBlob makes the check that store makes      *)
+(*   PackRevealsBase     after a pack of the changes removed the first     *)
+(*                       change(s) of an object, loadBefore below the      *)
+(*                       first revision left finds "in the changes, but    *)
+(*                       nothing earlier" and serves the revision of the   *)
+(*                       layer below - which the removed revisions had     *)
+(*                       replaced | the demo storage remembers the pack    *)
+(*                       time and answers None there                       *)
 (* `obs` (the answer of every query, transcription) and `dev` (where obs   *)
 (* differs from the meaning ObsTable(base \o changes), and why) are        *)
 (* functions of the other variables; they are printed with every state.    *)
@@ -61,7 +68,8 @@ CONSTANTS BaseKind, ChangesKind,   \* "file" | "mapping"
           Temporary,   \* the demo storages create their own changes storage (changes=None: a MappingStorage)
           PrintObs,    \* compute obs / dev with every state (behaviours for replay)
           BlobOids,    \* oids written with storeBlob (blob records: class "plain", the value lives in the blob file)
-          TidFromChangesOnly, UndoUncreates, OidProbeByLoad, PackAsCode, BlobStoreSkipsBaseCheck
+          TidFromChangesOnly, UndoUncreates, OidProbeByLoad, PackAsCode, BlobStoreSkipsBaseCheck,
+          PackRevealsBase
 
 VARIABLES layers,      \* sequence of histories
           inst,        \* per layer: [lastTs, ltid, lastPack, issued] (instance state of that storage / demo)
@@ -80,7 +88,8 @@ NoTxn == [owner |-> "none"]
 OK(what) == [call |-> what, out |-> "ok"]
 Out(what, o) == [call |-> what, out |-> o]
 Datums == {[v |-> <<a>>, refs |-> R] : a \in AtomVals, R \in RefSets}
-FreshInst == [lastTs |-> 0, ltid |-> 0, lastPack |-> 0, issued |-> {}]
+\* (demoPack: repaired design only - the latest pack time the demo storage was asked to pack to)
+FreshInst == [lastTs |-> 0, ltid |-> 0, lastPack |-> 0, issued |-> {}, demoPack |-> 0]
 NewTid(clk, last) == IF clk * K > last THEN clk * K ELSE last + 1
 KindOf(n) == IF n = 1 THEN BaseKind ELSE ChangesKind
 Top == Len(layers)
@@ -112,23 +121,30 @@ WalkEnd(C, o, e) ==
      ELSE IF r.k = "none" THEN e
      ELSE WalkEnd(C, o, r.serial)
 
-RECURSIVE QLoadBefore(_, _, _, _)
-QLoadBefore(L, n, o, t) ==
+\* I: the instance states (only the repaired design looks at them: the time up to which the changes were packed)
+RECURSIVE QLoadBefore(_, _, _, _, _)
+QLoadBefore(L, I, n, o, t) ==
   IF n = 1 THEN LoadBefore(L[1], o, t)
   ELSE LET r == LoadBefore(L[n], o, t) IN
-       IF r.k = "keyerr" THEN QLoadBefore(L, n - 1, o, t)        \* not in the changes: defer to base
+       IF r.k = "keyerr" THEN QLoadBefore(L, I, n - 1, o, t)     \* not in the changes: defer to base
        ELSE IF r.k = "rev" THEN r
-       ELSE LET b == QLoadBefore(L, n - 1, o, t) IN              \* in the changes, but nothing earlier
+       ELSE LET b == QLoadBefore(L, I, n - 1, o, t) IN           \* in the changes, but nothing earlier
             IF b.k = "keyerr" THEN NoneR
             ELSE IF b.k = "none" THEN NoneR
             ELSE IF b.end # 0 THEN b
             ELSE IF t = MaxTid THEN b
             ELSE LET e == WalkEnd(L[n], o, MaxTid) IN
                  IF e = -1 THEN KeyErr
+                 \* repaired: when the first revision left in the changes lies at or below a pack of the changes,
+                 \* earlier revisions may have been packed away: the revision from below is not served (None, as a
+                 \* packed storage answers below its pack time)
+                 ELSE IF ~PackRevealsBase /\ e # MaxTid /\ e <= I[n].demoPack THEN NoneR
                  ELSE Rev(b.d, b.serial, IF e = MaxTid THEN 0 ELSE e)
 
-\* load = utils.load_current: loadBefore(oid, maxtid); None -> POSKeyError
-QLoad(L, n, o) == LET r == QLoadBefore(L, n, o, MaxTid)
+\* load = utils.load_current: loadBefore(oid, maxtid); None -> POSKeyError  (the current revision never takes the
+\* "nothing earlier in the changes" branch, so the instance states do not matter)
+NoPacks(L) == [k \in 1..Len(L) |-> FreshInst]
+QLoad(L, n, o) == LET r == QLoadBefore(L, NoPacks(L), n, o, MaxTid)
                   IN IF r.k = "rev" THEN Rev(r.d, r.serial, 0) ELSE KeyErr
 
 RECURSIVE QLoadSerial(_, _, _, _)
@@ -161,7 +177,7 @@ QLast(I, n) == IF n = 1 THEN I[1].ltid
 DObs(L, I) ==
   LET n == Len(L)
       M == Cat(L)
-  IN [lb   |-> [o \in Oids |-> [t \in Bounds(M) |-> QLoadBefore(L, n, o, t)]],
+  IN [lb   |-> [o \in Oids |-> [t \in Bounds(M) |-> QLoadBefore(L, I, n, o, t)]],
       cur  |-> [o \in Oids |-> QLoad(L, n, o)],
       ser  |-> [o \in Oids |-> [t \in TidsOf(M) |-> QLoadSerial(L, n, o, t)]],
       gt   |-> [o \in Oids |-> QGetTid(L, n, o)],
@@ -214,7 +230,10 @@ DevFrom(L, I, D) ==
            M == Cat(L)
            \* "no such object at that time" is POSKeyError or None depending on which layer says it; both mean
            \* that there is no revision (a connection treats them alike): only revisions are compared
-           SameLb(a, b) == IF a.k = "rev" \/ b.k = "rev" THEN a = b ELSE TRUE
+           \* (repaired design: below a pack of the changes "no revision" is an answer, as for every packed storage)
+           packedTo == MaxS({I[k].demoPack : k \in 1..Len(I)})
+           Hidden(a, b) == ~PackRevealsBase /\ a.k = "none" /\ b.k = "rev" /\ b.end # 0 /\ b.end <= packedTo
+           SameLb(a, b) == IF a.k = "rev" \/ b.k = "rev" THEN (a = b \/ Hidden(a, b)) ELSE TRUE
            bLb == {q \in Oids \X Bounds(M) : ~SameLb(D.lb[q[1]][q[2]], W.lb[q[1]][q[2]])}
            bCur == {o \in Oids : D.cur[o] # W.cur[o]}
            bSer == {q \in Oids \X TidsOf(M) : D.ser[q[1]][q[2]] # W.ser[q[1]][q[2]]}
@@ -455,15 +474,25 @@ Pack(sec, g) ==
          \* MappingStorage sets _last_pack before it does anything else
          mark == ~IsFile /\ r.out \in {"ok", "KeyError"}
      IN /\ layers' = [layers EXCEPT ![Top] = r.h]
-        /\ inst' = IF (mark \/ r.out \in {"ok", "nothing-freed", "redundant"}) /\ T > inst[Top].lastPack
-                   THEN [inst EXCEPT ![Top].lastPack = T] ELSE inst
+        /\ inst' = LET J == IF (mark \/ r.out \in {"ok", "nothing-freed", "redundant"}) /\ T > inst[Top].lastPack
+                            THEN [inst EXCEPT ![Top].lastPack = T] ELSE inst
+                   \* repaired: pack() notes the pack time first of all
+                   IN IF ~PackRevealsBase /\ T > inst[Top].demoPack THEN [J EXCEPT ![Top].demoPack = T] ELSE J
         \* the code as it is: a garbage collection over the changes alone that fails on a reference into the base
         \* (or on the root living there) has already moved the objects it visited out of the changes
         \* (MappingStorage.pack is not exception safe; the visiting order is Python's set order).  The meaning
         \* of a pack that fails is "nothing changed": that is what the history keeps here; `cause` tells the
         \* replay that the real changes storage may have lost revisions at this point.
+        \* `stale`: the snapshots (oid, bound) that are served a revision after the pack which is not the revision
+        \* they were served before it, for objects the changes still hold (an object collected as garbage is gone
+        \* from the changes altogether: C07 does not constrain what an unreachable object reads as)
         /\ res' = [call |-> "pack", out |-> r.out, T |-> T, gc |-> g,
-                    cause |-> IF ownGc /\ g # "false" /\ r.out = "KeyError" THEN "pack-gc-ignores-base" ELSE "none"]
+                    cause |-> IF ownGc /\ g # "false" /\ r.out = "KeyError" THEN "pack-gc-ignores-base" ELSE "none",
+                    stale |-> {q \in Oids \X Bounds(Cat(layers)) :
+                                 LET a == QLoadBefore(layers, inst, Top, q[1], q[2])
+                                     b == QLoadBefore(layers', inst', Top, q[1], q[2])
+                                 IN /\ Idx(r.h, q[1]) # {} /\ b.k = "rev"
+                                    /\ ~(a.k = "rev" /\ a.d = b.d /\ a.serial = b.serial)}]
   /\ obs' = ObsOf(layers', inst') /\ dev' = DevOf(layers', inst', obs')
   /\ UNCHANGED <<txn, clock, begun, noids>>
 
@@ -596,6 +625,10 @@ UndoInChangesOnly ==
   [][(res'.call = "undo" /\ res'.out = "ok") => (Len(txn'.undone) > 0 /\ txn'.undone[Len(txn'.undone)] \in TidsOf(TopH))]_vars
 
 \* new_oid never returns an id issued before by this demo storage or present in any layer
+\* whatever packs are done through it: no snapshot is served, after a pack, a revision other than the one it was
+\* served before (it may be served none: packed away) - in particular not the revision of a lower layer that
+\* the packed-away changes had replaced
+PackServesNoStaleRevision == [][res'.call = "pack" => res'.stale = {}]_vars
 \* storeBlob detects conflicts as store does (implied by ConflictAcrossLayers for committed revisions)
 BlobStoreChecked == [][(res'.call = "store" /\ "lost" \in DOMAIN res') => ~res'.lost]_vars
 OidFreshBothLayers == [][(res'.call = "new_oid" /\ noids' = noids + 1) => ~res'.collides]_vars
